@@ -693,9 +693,62 @@ func (g *Grammar) callCtor(fn *ssa.Function, args []*AVal, depth int) *AVal {
 		if !feasible {
 			continue
 		}
-		out.merge(g.evalSSA(fn, r.Results[0], args, map[ssa.Value]bool{}, depth))
+		rv := g.evalSSA(fn, r.Results[0], args, map[ssa.Value]bool{}, depth)
+		// the parameter itself handed back after a type switch all of whose
+		// ways to this return went through a successful assertion of it
+		// (`switch node := node.(type) { case *A: …; case *B: …; default:
+		// return … }; return node`): only those kinds come back
+		if q, isP := r.Results[0].(*ssa.Parameter); isP {
+			if ts := assertedOnAllPaths(fn, q, r.Instr.Block()); len(ts) > 0 {
+				kept := ShapeSet{}
+				for _, t := range ts {
+					kept.addAll(filterByType(rv.Nodes, t))
+				}
+				rv.Nodes = kept
+			}
+		}
+		out.merge(rv)
 	}
 	return out
+}
+
+// assertedOnAllPaths: every path from fn's entry to block b takes the success
+// edge of a comma-ok type assertion of q; the asserted types (nil otherwise).
+func assertedOnAllPaths(fn *ssa.Function, q *ssa.Parameter, b *ssa.BasicBlock) []types.Type {
+	var ts []types.Type
+	isAssertEdge := func(p *ssa.BasicBlock, si int) bool {
+		iff, ok := p.Instrs[len(p.Instrs)-1].(*ssa.If)
+		if !ok || si != 0 {
+			return false
+		}
+		ex, ok := iff.Cond.(*ssa.Extract)
+		if !ok || ex.Index != 1 {
+			return false
+		}
+		ta, ok := ex.Tuple.(*ssa.TypeAssert)
+		if !ok || !ta.CommaOk || ta.X != ssa.Value(q) {
+			return false
+		}
+		ts = append(ts, ta.AssertedType)
+		return true
+	}
+	seen := map[*ssa.BasicBlock]bool{fn.Blocks[0]: true}
+	work := []*ssa.BasicBlock{fn.Blocks[0]}
+	for len(work) > 0 {
+		p := work[0]
+		work = work[1:]
+		if p == b {
+			return nil // reachable without any successful assertion
+		}
+		for si, s := range p.Succs {
+			if seen[s] || isAssertEdge(p, si) {
+				continue
+			}
+			seen[s] = true
+			work = append(work, s)
+		}
+	}
+	return ts
 }
 
 func (g *Grammar) evalSSA(fn *ssa.Function, v ssa.Value, args []*AVal, seen map[ssa.Value]bool, depth int) *AVal {
